@@ -9,7 +9,10 @@ SPAN_LIMIT = 64 * 1024   # bytes of stack between the shallowest and deepest fol
 def c19_stack(run, mod):
     n = 200000 if run.tier == "quick" else 1000000
     results = []
+    n_all = n
     for fam in FAMILIES:
+        # the traversal's validation pass is quadratic in the degree of a hub: the one-hub family stays at 200 000
+        n = min(n_all, 200000) if fam == "branches" else n_all
         try:
             r = subprocess.run([os.path.join(mod.BIN, "stack"), fam, str(n)], stdout=subprocess.PIPE, stderr=subprocess.PIPE, text=True, timeout=600, env=mod.ENV)
             rc, out, err = r.returncode, r.stdout, r.stderr
